@@ -235,6 +235,13 @@ fn guard(case: &C12Case, t: &Tree) -> Option<&'static str> {
 
 /// covdir: every directory's totals are the sums over its listed children; returns the root's
 /// (linesTotal, sum of linesTotal over the listed files)
+/// no two records are filed under the same node by a tree-shaped writer (output_covdir keys a
+/// record by its reported path, or by the canonical path when the reported path is absolute)
+fn tree_paths_distinct(recs: &Recs) -> bool {
+    let mut seen = BTreeSet::new();
+    recs.iter().all(|(a, r, _)| seen.insert(if r.starts_with('/') { a.clone() } else { r.clone() }))
+}
+
 fn covdir_check(v: &Value, bad: &mut Vec<String>, path: &str) -> (u64, u64) {
     let total = v["linesTotal"].as_u64().unwrap_or(0);
     match v.get("children") {
@@ -572,7 +579,7 @@ fn stream(rep: &mut Report, rng: &mut Rng) {
                         let (total, listed) = covdir_check(&v, &mut bad, "");
                         // which record a tree writer keeps for a duplicated path depends on the
                         // order of the records: the listed total is compared only without duplicates
-                        let nodup = duplicates(recs, &t.cw).is_empty();
+                        let nodup = duplicates(recs, &t.cw).is_empty() && tree_paths_distinct(recs);
                         creqs.push(request("covdir", &t, &cases[i].cfg, &cases[i].flat()));
                         couts.push((format!("{} {}", total, listed), i, nodup));
                     }
@@ -835,11 +842,28 @@ pub fn run(rep: &mut Report) {
     witness(rep);
     witness_prefix(rep);
     witness_links(rep);
+    corpus(rep);
     stream(rep, &mut rng);
     std::env::set_current_dir("/verif").unwrap();
     cli_stream(rep, &mut rng);
     rep.notes.push("observation (counted as out.distinct_files_one_path, not judged by C12): with a source dir whose last component is T, a relative key T/../x is resolved by guess_abs_path to <parent of source dir>/x, outside the source dir, and is reported with the relative path x; if x is also reported for <source dir>/x, two different files share one path".into());
     rep.notes.push("the main stream is in-process (add_results, rewrite_paths, output_covdir); a second, small stream drives the CLI with files existing under --source-dir and --path-mapping / --prefix-dir options. every second tree has symbolic links (directory and file links, chains, relative and absolute targets, into and out of the source dir, dangling, loops) and files are also named through them; Java/Kotlin keys and markers are outside the generated domain; keys that denote a directory are not written with output_covdir (it panics on an empty path: not this property)".into());
+}
+
+/// corpus/C12/*.json: minimised past disagreements, replayed first on every run
+fn corpus(rep: &mut Report) {
+    let mut files: Vec<std::path::PathBuf> = std::fs::read_dir("/verif/corpus/C12")
+        .map(|d| d.filter_map(|e| e.ok().map(|e| e.path())).collect())
+        .unwrap_or_default();
+    files.sort();
+    for f in files {
+        if let Ok(text) = std::fs::read_to_string(&f) {
+            if let Ok(v) = serde_json::from_str::<Value>(&text) {
+                rep.count("corpus.case");
+                replay(rep, &v["case"]);
+            }
+        }
+    }
 }
 
 pub fn replay(rep: &mut Report, case: &Value) {
@@ -853,6 +877,30 @@ pub fn replay(rep: &mut Report, case: &Value) {
         let model = run_model_named("gm_c12", &[req.clone()], &rep.workdir, "replay");
         rep.case(&req, true);
         report_case(rep, &t, &c, &r, &model[0], "replay");
+        // the covdir totals of the report against the model (same comparison as in `stream`)
+        if let Ok(recs) = &r {
+            if !recs.is_empty() && covdir_domain(recs) {
+                if let Ok(v) = covdir_of(rep, recs, "replay") {
+                    let mut bad = vec![];
+                    let (total, listed) = covdir_check(&v, &mut bad, "");
+                    let nodup = duplicates(recs, &t.cw).is_empty() && tree_paths_distinct(recs);
+                    let creq = request("covdir", &t, &c.cfg, &c.flat());
+                    let cm = run_model_named("gm_c12", &[creq.clone()], &rep.workdir, "replaycov");
+                    let got = format!("{} {}", total, listed);
+                    let same = if nodup { got == cm[0] } else { got.split(' ').next() == cm[0].split(' ').next() };
+                    rep.case(&creq, true);
+                    if !same {
+                        rep.disagreements_checked += 1;
+                        let mut cj = c.to_json(&t);
+                        cj["impl_totals"] = json!(got);
+                        cj["model_totals"] = json!(cm[0]);
+                        cj["impl_records"] = json!(show_recs(&r));
+                        cj["covdir"] = v.clone();
+                        rep.fail("disagreement", None, "covdir root total / listed total differ from Rewrite.dirTotal / listedTotal".into(), cj);
+                    }
+                }
+            }
+        }
         std::env::set_current_dir("/verif").unwrap();
     }
 }
